@@ -180,6 +180,14 @@ class TreeDriver:
             before[name] = real.get(name)
         if any(c.kind == 'h' and c.beneath for c in node.children.values()):
             self.flags.add('clear-layered')
+        # handles kept retrievable beneath newer ones (deeper layers of the
+        # ChainMap) are children of this map as well
+        for depth, layer in enumerate(real.handles.maps[1:], 1):
+            for name, h in layer.items():
+                if h.parent is real and not any(h is v for v in
+                                                before.values()):
+                    before[f'{name} (layer {depth})'] = h
+                    self.flags.add('clear-shadowed-child')
         real.clear()
         node.children = {}
         self.flags.add('clear')
